@@ -39,15 +39,20 @@ Reading guide
   (any redundant parentheses).
 * Classic notation: `C09_cla_render`, `C09_cla_tokens`, `C09_cla_ok_iff`, `C09_cla_err_iff`,
   `C09_cla_wellformed_iff`, `C09_cla_wellformed_iff_printing`, `C09_cla_complete`,
-  `C09_toDeBruijn_spec`, `C09_cla_denotes`, `C09_cla_invalid_char(_binder)(_backslash)`,
-  `C09_cla_junk_after_name`.
-  An identifier is a letter followed by alphanumeric characters (`Cl.WfName`).  A variable name ends
-  at the end of the input or at the first character that is NOT alphanumeric, which is then lexed
-  like any character at top level: whitespace, a parenthesis, a BACKSLASH (the ASCII lambda glyph:
-  `x\y.y` is `x (\y.y)`, `C09_cla_backslash_ends_name`) — and anything else that cannot start a
-  token is `InvalidCharacter` (`x.y`, `x#`, `λx.x-`: `C09_cla_junk_after_name`,
-  `C09_cla_junk_dot/_hash/_minus`; repair F10 of the crate — before it the junk was swallowed into
-  the name).
+  `C09_toDeBruijn_spec`, `C09_cla_denotes`, `C09_cla_invalid_char(_binder)(_backslash)(_glyph)`,
+  `C09_cla_junk_after_name`, `C09_cla_glyph_ends_name`, `C09_cla_glyph_after_name_invariant`,
+  `C09_cla_empty_binder_name(_parse)(_after)`.
+  An identifier is a letter followed by alphanumeric characters other than the glyph `λ`
+  (`Cl.WfName`).  A variable name ends at the end of the input or at the first character that is NOT
+  alphanumeric or is the glyph `λ`, which is then lexed like any character at top level: whitespace,
+  a parenthesis, a GLYPH — the backslash (`x\y.y` is `x (\y.y)`, `C09_cla_backslash_ends_name`,
+  repair F9 of the crate) or `λ`, although it is a letter for Unicode (`xλy.y` is `x (λy.y)` too,
+  `C09_cla_lambda_ends_name`, `C09_cla_glyph_ends_name`, repair F11 of the crate — before it `λ`
+  continued the name) — and anything else that cannot start a token is `InvalidCharacter` (`x.y`,
+  `x#`, `λx.x-`: `C09_cla_junk_after_name`, `C09_cla_junk_dot/_hash/_minus`; repair F10 of the
+  crate — before it the junk was swallowed into the name).
+  A binder name cannot be empty: `λ.x` is `InvalidCharacter 1 '.'` (`C09_cla_empty_binder_name`,
+  `C09_cla_empty_binder_dot`, repair F12 of the crate — before it the binder had the empty name).
 * Both: `C09_notations_agree*`, `C09_no_truncation*`, `C09_cla_unmatched_rparen`, `C09_no_panic`.
 -/
 import LC.Proofs.Syntax.DeBruijn
@@ -718,7 +723,7 @@ theorem C09_cla_invalid_char (cls : CharCls) (hcls : Cl.ClsOk cls)
 /-- JUNK DIRECTLY AFTER A VARIABLE NAME (the Classic analogue of `C09_dbr_invalid_char` for a
 character that follows an identifier without a separator): after a prefix `pre` that renders
 complete tokens and ends at top level, and a well-formed name `n` (a letter, then alphanumeric
-characters), a character `c` that can neither continue the name (it is not alphanumeric) nor start
+characters other than the glyph `λ`), a character `c` that can neither continue the name (it is not alphanumeric) nor start
 a token (it is not a glyph, a parenthesis, whitespace or a letter) is reported by `parse` as
 `InvalidCharacter`, with its character index and the character — it is NOT swallowed into the name
 (`x.y`, `x#`, `λx.x-` …).  (Under `Cl.ClsOk` a letter is alphanumeric, so `halpha` follows from
@@ -749,7 +754,8 @@ theorem C09_cla_invalid_char_general (cls : CharCls) (hcls : Cl.ClsOk cls)
 
 /-- inside a binder (after the glyph and a possibly empty partial name `nm`), a character other than
 the dot that cannot continue the name — not a letter if `nm` is empty, not alphanumeric otherwise —
-is reported likewise -/
+is reported likewise.  (Since the repair F12 of the crate the dot itself is reported too when `nm`
+is empty: `C09_cla_empty_binder_name`.) -/
 theorem C09_cla_invalid_char_binder (cls : CharCls) (hcls : Cl.ClsOk cls)
     (ts₀ : List CToken) (pre : List Nat) (g : Nat) (nm : List Nat) (c : Nat) (post : List Nat)
     (hpre : Cl.Renders cls ts₀ pre) (hend : Cl.EndsTop cls pre) (hg : isLam g = true)
@@ -775,6 +781,167 @@ theorem C09_cla_invalid_char_binder_backslash (cls : CharCls) (hcls : Cl.ClsOk c
       = .err (.InvalidCharacter (pre.length + 1 + nm.length) c) :=
   C09_cla_lex_error cls _ _
     (tokenizeCla_invalid_binder_backslash cls hcls ts₀ pre nm c post hpre hnm hdot hbad)
+
+/-- … and, since the repair F11 of the crate, for a binder opened by EITHER glyph directly after a
+variable name (the glyph `λ` ends the name too): the prefix may be ANY rendering of complete tokens
+(`xλ1` ↦ `InvalidCharacter 2 '1'`) -/
+theorem C09_cla_invalid_char_binder_glyph (cls : CharCls) (hcls : Cl.ClsOk cls)
+    (ts₀ : List CToken) (pre : List Nat) (g : Nat) (nm : List Nat) (c : Nat) (post : List Nat)
+    (hpre : Cl.Renders cls ts₀ pre) (hg : isLam g = true)
+    (hnm : ∀ a as, nm = a :: as →
+      cls.isAlpha a = true ∧ a ≠ cDot ∧ ∀ d ∈ as, cls.isAlnum d = true ∧ d ≠ cDot)
+    (hdot : c ≠ cDot)
+    (hbad : if nm = [] then cls.isAlpha c = false else cls.isAlnum c = false) :
+    parse cls (pre ++ g :: (nm ++ c :: post)) .Classic
+      = .err (.InvalidCharacter (pre.length + 1 + nm.length) c) :=
+  C09_cla_lex_error cls _ _
+    (tokenizeCla_invalid_binder_glyph cls hcls ts₀ pre g nm c post hpre hg hnm hdot hbad)
+
+/-! ### the two glyphs after a variable name; the empty binder name (repairs F11, F12) -/
+
+/-- A GLYPH ENDS A VARIABLE NAME (repair F11 of the crate for `λ`, F9 for the backslash): inside a
+variable name (`acc` = the characters read so far), EITHER glyph ends the name — `CName acc` is
+pushed — and opens a binder.  For the backslash this is because it is not alphanumeric
+(`Cl.ClsOk`); the glyph `λ` IS a letter for Unicode, and is excluded from names by an explicit
+test of the code (before the repair it continued the name: `xλy.y` was the name `xλy` followed by
+an invalid dot). -/
+theorem C09_cla_glyph_ends_name (cls : CharCls) (hcls : Cl.ClsOk cls) (acc : List Nat) (i : Nat)
+    (g : Nat) (cs : List Nat) (hg : isLam g = true) :
+    tokenizeClaAux cls (.name acc) i (g :: cs)
+      = (CToken.CName acc :: ·) <$> tokenizeClaAux cls (.lam [] true) (i + 1) cs :=
+  C09C.lex_name_glyph hcls acc i hg cs
+
+/-- … so directly after a variable name the two glyphs are interchangeable: inside a name, the
+lexer does the same on `λ …` as on `\ …`, for every classification satisfying `Cl.ClsOk` -/
+theorem C09_cla_glyph_after_name_invariant (cls : CharCls) (hcls : Cl.ClsOk cls) (acc : List Nat)
+    (i : Nat) (cs : List Nat) :
+    tokenizeClaAux cls (.name acc) i (cLambda :: cs)
+      = tokenizeClaAux cls (.name acc) i (cBackslash :: cs) := by
+  rw [C09_cla_glyph_ends_name cls hcls acc i cLambda cs (by decide),
+    C09_cla_glyph_ends_name cls hcls acc i cBackslash cs (by decide)]
+
+/-- the same for `parse`: after ANY rendering `pre` of complete tokens — whether it ends at top
+level or inside a variable name — the strings `pre λ …` and `pre \ …` have the same outcome (term
+or error).  (Not so INSIDE A BINDER name, where `λ` is still an ordinary letter: `λxλy.x` has one
+binder named `xλy`, while `λx\y.x` is `InvalidCharacter 2 '\'`; see the examples below.) -/
+theorem C09_cla_glyph_after_tokens_invariant (cls : CharCls) (hcls : Cl.ClsOk cls)
+    (ts₀ : List CToken) (pre s : List Nat) (hpre : Cl.Renders cls ts₀ pre) :
+    parse cls (pre ++ cLambda :: s) .Classic = parse cls (pre ++ cBackslash :: s) .Classic := by
+  have h : tokenizeCla cls (pre ++ cLambda :: s) = tokenizeCla cls (pre ++ cBackslash :: s) := by
+    unfold tokenizeCla
+    rw [C09C.lex_prefix' hcls hpre 0 _ (Or.inr (C09C.nameEnd_glyph hcls (by decide) s)),
+      C09C.lex_prefix' hcls hpre 0 _ (Or.inr (C09C.nameEnd_glyph hcls (by decide) s)),
+      C09C.lex_top_glyph (by decide), C09C.lex_top_glyph (by decide)]
+  rw [parse_cla_spec, parse_cla_spec, h]
+
+/-- whitespace between a variable name and a following binder is optional, WHICHEVER the glyph
+(generalises `C09_cla_renders_name_backslash` to `λ`): the strings `pre n ws g …` and `pre n g …`
+are renderings of the same named tokens … -/
+theorem C09_cla_renders_name_glyph (cls : CharCls) (hcls : Cl.ClsOk cls)
+    (ts₀ cts : List CToken) (pre n ws s : List Nat) (g : Nat) (hg : isLam g = true)
+    (hpre : Cl.Renders cls ts₀ pre) (hend : Cl.EndsTop cls pre) (hn : Cl.WfName cls n)
+    (hws : ∀ w ∈ ws, cls.isWs w = true) (hs : Cl.Renders cls cts (g :: s)) :
+    Cl.Renders cls (ts₀ ++ CToken.CName n :: cts) (pre ++ (n ++ (ws ++ g :: s))) ∧
+    Cl.Renders cls (ts₀ ++ CToken.CName n :: cts) (pre ++ (n ++ g :: s)) :=
+  ⟨renders_name_glyph cls hcls ts₀ cts pre n ws s g hg hpre hend hn hws hs,
+   renders_name_glyph cls hcls ts₀ cts pre n [] s g hg hpre hend hn (by simp) hs⟩
+
+/-- … hence have the same outcome -/
+theorem C09_cla_whitespace_before_glyph (cls : CharCls) (hcls : Cl.ClsOk cls)
+    (ts₀ cts : List CToken) (pre n ws s : List Nat) (g : Nat) (hg : isLam g = true)
+    (hpre : Cl.Renders cls ts₀ pre) (hend : Cl.EndsTop cls pre) (hn : Cl.WfName cls n)
+    (hws : ∀ w ∈ ws, cls.isWs w = true) (hs : Cl.Renders cls cts (g :: s)) :
+    parse cls (pre ++ (n ++ (ws ++ g :: s))) .Classic
+      = parse cls (pre ++ (n ++ g :: s)) .Classic :=
+  have h := C09_cla_renders_name_glyph cls hcls ts₀ cts pre n ws s g hg hpre hend hn hws hs
+  C09_cla_whitespace_glyph_invariant cls hcls _ _ _ h.1 h.2
+
+/-- AN EMPTY BINDER NAME IS A LEXICAL ERROR (repair F12 of the crate): a glyph directly followed by
+the dot is reported as `InvalidCharacter` AT THE DOT, for every classification in which the dot is
+not a letter (`hdot`: true of Rust's `char::is_alphabetic`; `Cl.ClsOk` says nothing about the dot,
+so this is a separate hypothesis, and `Cl.ClsOk` itself is not needed).  Before the repair the dot
+ended the binder at once and `λ.x` lexed as a binder with the EMPTY name. -/
+theorem C09_cla_empty_binder_name (cls : CharCls) (hdot : cls.isAlpha cDot = false)
+    (g : Nat) (hg : isLam g = true) (i : Nat) (cs : List Nat) :
+    tokenizeClaAux cls .top i (g :: cDot :: cs) = .error (.InvalidCharacter (i + 1) cDot) := by
+  rw [C09C.lex_top_glyph hg, C09C.lex_lam_first_bad hdot]
+
+/-- … so `parse` returns that error on every input that starts with an empty binder … -/
+theorem C09_cla_empty_binder_name_parse (cls : CharCls) (hdot : cls.isAlpha cDot = false)
+    (g : Nat) (hg : isLam g = true) (cs : List Nat) :
+    parse cls (g :: cDot :: cs) .Classic = .err (.InvalidCharacter 1 cDot) :=
+  C09_cla_lex_error cls _ _ (C09_cla_empty_binder_name cls hdot g hg 0 cs)
+
+/-- … and wherever an empty binder follows ANY rendering `pre` of complete tokens (also directly
+after a variable name, which the glyph ends): the dot is reported with its character index -/
+theorem C09_cla_empty_binder_name_after (cls : CharCls) (hcls : Cl.ClsOk cls)
+    (hdot : cls.isAlpha cDot = false) (ts₀ : List CToken) (pre : List Nat) (g : Nat)
+    (post : List Nat) (hpre : Cl.Renders cls ts₀ pre) (hg : isLam g = true) :
+    parse cls (pre ++ g :: cDot :: post) .Classic
+      = .err (.InvalidCharacter (pre.length + 1) cDot) :=
+  C09_cla_lex_error cls _ _ (tokenizeCla_empty_binder cls hcls hdot ts₀ pre g post hpre hg)
+
+section
+open C09C.Examples (asciiCls asciiCls_ok wf_x)
+
+/-- `C09_cla_glyph_ends_name` on `xλy.y` and `x\y.y` (the lexer is inside the name `x`, at
+character 1): `CName x`, then the binder -/
+example : tokenizeClaAux asciiCls (.name [120]) 1 [955, 121, 46, 121]
+    = (CToken.CName [120] :: ·) <$> tokenizeClaAux asciiCls (.lam [] true) 2 [121, 46, 121] :=
+  C09_cla_glyph_ends_name asciiCls asciiCls_ok [120] 1 955 _ (by decide)
+example : tokenizeClaAux asciiCls (.name [120]) 1 [92, 121, 46, 121]
+    = (CToken.CName [120] :: ·) <$> tokenizeClaAux asciiCls (.lam [] true) 2 [121, 46, 121] :=
+  C09_cla_glyph_ends_name asciiCls asciiCls_ok [120] 1 92 _ (by decide)
+
+/-- `xλy.y` lexes exactly as `x\y.y`: `x`, `λy.`, `y` (by evaluation, and from the theorems) -/
+example : tokenizeCla asciiCls [120, 955, 121, 46, 121]
+    = .ok [.CName [120], .CLambda [121], .CName [121]] := rfl
+example : tokenizeCla asciiCls [120, 955, 121, 46, 121]
+    = tokenizeCla asciiCls [120, 92, 121, 46, 121] := rfl
+example : tokenizeClaAux asciiCls (.name [120]) 1 (cLambda :: [121, 46, 121])
+    = tokenizeClaAux asciiCls (.name [120]) 1 (cBackslash :: [121, 46, 121]) :=
+  C09_cla_glyph_after_name_invariant asciiCls asciiCls_ok [120] 1 _
+example : parse asciiCls ([120] ++ cLambda :: [121, 46, 121]) .Classic
+    = parse asciiCls ([120] ++ cBackslash :: [121, 46, 121]) .Classic :=
+  C09_cla_glyph_after_tokens_invariant asciiCls asciiCls_ok [.CName [120]] [120] _
+    (.name (n := [120]) wf_x trivial .nil)
+
+/-- `xλ1`: the binder opened by `λ` directly after a name is validated; `1` is character 2 -/
+example : parse asciiCls ([120] ++ 955 :: ([] ++ 49 :: [])) .Classic
+    = .err (.InvalidCharacter 2 49) :=
+  C09_cla_invalid_char_binder_glyph asciiCls asciiCls_ok [.CName [120]] [120] 955 [] 49 []
+    (.name (n := [120]) wf_x trivial .nil) (by decide) (by intro a as h; cases h) (by decide)
+    (by decide)
+
+/-- `λ.x`, `\.x`: an empty binder name; the dot is character 1 -/
+example : tokenizeClaAux asciiCls .top 0 (955 :: cDot :: [120])
+    = .error (.InvalidCharacter (0 + 1) cDot) :=
+  C09_cla_empty_binder_name asciiCls (by decide) 955 (by decide) 0 _
+example : parse asciiCls (955 :: cDot :: [120]) .Classic = .err (.InvalidCharacter 1 cDot) :=
+  C09_cla_empty_binder_name_parse asciiCls (by decide) 955 (by decide) _
+example : parse asciiCls (92 :: cDot :: [120]) .Classic = .err (.InvalidCharacter 1 cDot) :=
+  C09_cla_empty_binder_name_parse asciiCls (by decide) 92 (by decide) _
+example : parse asciiCls [955, 46, 120] .Classic = .err (.InvalidCharacter 1 46) := rfl
+
+/-- `xλ.x`: an empty binder directly after a name; the dot is character 2 -/
+example : parse asciiCls ([120] ++ 955 :: cDot :: [120]) .Classic
+    = .err (.InvalidCharacter (1 + 1) cDot) :=
+  C09_cla_empty_binder_name_after asciiCls asciiCls_ok (by decide) [.CName [120]] [120] 955 [120]
+    (.name (n := [120]) wf_x trivial .nil) (by decide)
+
+/-- UNCHANGED by the repairs: an unterminated (possibly empty) binder at the end of the input is
+pushed as it is (`λx`, `λ`; the token-level stage then rejects the empty body), and INSIDE A BINDER
+name `λ` is an ordinary letter (`λxλy.x` has ONE binder, named `xλy`; `\λ.x` has a binder named
+`λ`) whereas the backslash is not (`λx\y.x` ↦ `InvalidCharacter 2 '\'`) -/
+example : tokenizeCla asciiCls [955, 120] = .ok [.CLambda [120]] := rfl
+example : tokenizeCla asciiCls [955] = .ok [.CLambda []] := rfl
+example : tokenizeCla asciiCls [955, 120, 955, 121, 46, 120]
+    = .ok [.CLambda [120, 955, 121], .CName [120]] := rfl
+example : tokenizeCla asciiCls [92, 955, 46, 120] = .ok [.CLambda [955], .CName [120]] := rfl
+example : tokenizeCla asciiCls [955, 120, 92, 121, 46, 120]
+    = .error (.InvalidCharacter 2 92) := rfl
+
+end
 
 /-! ## 3. the two notations agree -/
 
@@ -971,7 +1138,8 @@ Code points: `λ` 955, `\` 92, `(` 40, `)` 41, `.` 46, space 32, `#` 35, `0`..`9
 `LC/Proofs/Syntax/Classic.lean`. -/
 
 namespace C09.Examples
-open C09C.Examples (asciiCls asciiCls_ok nameEnd_of wf_single wf_x wf_y wf_z renders₁ renders₂ renders₆)
+open C09C.Examples (asciiCls asciiCls_ok nameEnd_of nameEnd_lambda wf_single wf_x wf_y wf_z renders₁
+  renders₂ renders₆ renders₇)
 open Parser.CToken Parser.Token Cl.NTerm
 
 /-- ground evaluation of the token-level stage (`foldList` is compiled by well-founded recursion,
@@ -1138,17 +1306,50 @@ example : parse asciiCls ([] ++ ([120] ++ ([32, 32] ++ 92 :: [121, 46, 121]))) .
     [] [120] [32, 32] [121, 46, 121] .nil (by intro c h; simp at h) wf_x (by decide)
     (.lam (g := 92) (n := [121]) (by decide) wf_y (.name (n := [121]) wf_y trivial .nil))
 
-/-- the other glyph `λ` is a letter: in `xλy.y` it continues the name `xλy`, which the dot — not
-alphanumeric and unable to start a token — ends with an error at character 3 … -/
-example : parse asciiCls [120, 955, 121, 46, 121] .Classic = .err (.InvalidCharacter 3 46) := rfl
-
-/-- … and `xλy` alone is ONE name (a free variable) -/
-example : parse asciiCls [120, 955, 121] .Classic = .ok (var 1) := by
-  rw [parse_cla_spec, show tokenizeCla asciiCls [120, 955, 121]
-    = .ok [CName [120, 955, 121]] from rfl]
-  simp only [show convertClassicTokens [CName [120, 955, 121]]
-    = some [Number 1] from by decide]
+/-- the other glyph `λ`, although a letter, ends a variable name too (repair F11 of the crate):
+`xλy.y` lexes as `x`, `λy.`, `y` — the same tokens as `x\y.y` — and denotes `x (λy.y)` (by evaluation
+of the model, stage by stage) … -/
+theorem ex_lambda_ends_name :
+    parse asciiCls [120, 955, 121, 46, 121] .Classic = .ok (app (var 1) (abs (var 1))) := by
+  rw [parse_cla_spec, show tokenizeCla asciiCls [120, 955, 121, 46, 121]
+    = .ok [CName [120], CLambda [121], CName [121]] from rfl]
+  simp only [show convertClassicTokens [CName [120], CLambda [121], CName [121]]
+    = some [Number 1, Lambda, Number 1] from by decide]
   c09_eval
+
+/-- … the same from the general theorem `C09_cla_denotes`: `xλy.y` is a rendering (`renders₇`) of
+an admissible printing of the named term `x (λy.y)` … -/
+example : parse asciiCls [120, 955, 121, 46, 121] .Classic
+    = .ok (Cl.toDeBruijn (napp (nvar [120]) (nlam [121] (nvar [121])))) :=
+  C09_cla_denotes asciiCls asciiCls_ok _ false true _ _
+    (.app (c₁ := [_]) (c₂ := [_, _]) .var (.lam .var)) renders₇
+
+/-- … and `xλy.y`, `x\y.y` are two renderings of the same named tokens, hence parse alike
+(`C09_cla_whitespace_glyph_invariant`) -/
+example : parse asciiCls [120, 955, 121, 46, 121] .Classic
+    = parse asciiCls [120, 92, 121, 46, 121] .Classic :=
+  C09_cla_whitespace_glyph_invariant asciiCls asciiCls_ok _ _ _ renders₇ renders₆
+
+/-- `x  λy.y` (whitespace inserted) has the same outcome (`C09_cla_whitespace_before_glyph`) -/
+example : parse asciiCls ([] ++ ([120] ++ ([32, 32] ++ 955 :: [121, 46, 121]))) .Classic
+    = parse asciiCls ([] ++ ([120] ++ 955 :: [121, 46, 121])) .Classic :=
+  C09_cla_whitespace_before_glyph asciiCls asciiCls_ok [] [CLambda [121], CName [121]]
+    [] [120] [32, 32] [121, 46, 121] 955 (by decide) .nil (by intro c h; simp at h) wf_x (by decide)
+    (.lam (g := 955) (n := [121]) (by decide) wf_y (.name (n := [121]) wf_y trivial .nil))
+
+/-- `xλy` alone is the name `x` followed by the unterminated binder `λy`, whose body is empty
+(before the repair it was ONE name, a free variable) -/
+example : parse asciiCls [120, 955, 121] .Classic = .err .EmptyExpression := by
+  rw [parse_cla_spec, show tokenizeCla asciiCls [120, 955, 121]
+    = .ok [CName [120], CLambda [121]] from rfl]
+  simp only [show convertClassicTokens [CName [120], CLambda [121]]
+    = some [Number 1, Lambda] from by decide]
+  c09_eval
+
+/-- an empty binder name (repair F12 of the crate): `λ.x` is an error at the dot (before the repair
+it parsed as `λ2`: a binder with the empty name, and `x` free) -/
+theorem ex_empty_binder :
+    parse asciiCls [955, 46, 120] .Classic = .err (.InvalidCharacter 1 46) := rfl
 
 /-- junk directly after a name (by evaluation of the model): `x.y`, `x#`, `λx.x-` -/
 theorem ex_junk_dot : parse asciiCls [120, 46, 121] .Classic = .err (.InvalidCharacter 1 46) := rfl
@@ -1343,6 +1544,19 @@ input was one identifier and `parse` returned `Ok(Var(1))` -/
 theorem C09_cla_backslash_ends_name :
     parse C09C.Examples.asciiCls [120, 92, 121, 46, 121] .Classic = .ok (app (var 1) (abs (var 1))) :=
   C09.Examples.ex_backslash_ends_name
+
+/-- the string `xλy.y`: the glyph `λ` ends the variable name `x` too, although it is a letter (repair
+F11 of the crate); before the repair `xλy` was one identifier and `parse` returned
+`Err(InvalidCharacter((3, '.')))` -/
+theorem C09_cla_lambda_ends_name :
+    parse C09C.Examples.asciiCls [120, 955, 121, 46, 121] .Classic = .ok (app (var 1) (abs (var 1))) :=
+  C09.Examples.ex_lambda_ends_name
+
+/-- the string `λ.x`: a binder name cannot be empty (repair F12 of the crate); before the repair
+`parse` returned `Ok(λ2)` -/
+theorem C09_cla_empty_binder_dot :
+    parse C09C.Examples.asciiCls [955, 46, 120] .Classic = .err (.InvalidCharacter 1 46) :=
+  C09.Examples.ex_empty_binder
 
 /-- the string `x.y`: the dot cannot continue the name `x` and cannot start a token (repair F10 of
 the crate); before the repair `x.y` was one identifier and `parse` returned `Ok(Var(1))` -/
